@@ -8,13 +8,18 @@
 //!         [3, ri, off, len]                                          reset_addr_range
 //! obs:   per step  [ok,count]  then per region  [dirty bit per page, +2 margin]  [changed-byte runs o,n,...]
 //!
+//!   accessor opcode 6 (descriptor read) a4: 0 a file holding a3 bytes, 1 a write-only descriptor (EBADF, nothing
+//!         stored), 2 a read that FAILS PART-WAY: the source is a datagram of a1 bytes and the host pages of the
+//!         region from region offset a3 (a multiple of 4096) on are mprotect()ed to PROT_NONE through the raw host
+//!         pointer for the duration of the call: the kernel stores the bytes in front of a3, then returns EFAULT.
+//!
 //! Observation is independent of the accessors under test: before every step all region memory is
 //! filled (raw pointer) with the byte X, everything the step writes is the byte Y != X, and afterwards
 //! the memory is scanned (raw pointer) for bytes != X; the bitmap is scanned with dirty_at on every page.
 use crate::tok::n;
 use crate::{Rng, Suite, Tier, Tok};
 use std::num::NonZeroUsize;
-use std::sync::atomic::Ordering;
+use std::sync::atomic::{AtomicUsize, Ordering};
 use std::sync::Arc;
 use vm_memory::bitmap::{ArcSlice, AtomicBitmap, Bitmap, BitmapSlice, WithBitmapSlice};
 use vm_memory::mmap::MmapRegionBuilder;
@@ -24,6 +29,10 @@ use vm_memory::{
 };
 
 pub const SUITES: &[Suite] = &[Suite { name: "C05", gen, exec }, Suite { name: "C16", gen, exec }];
+
+/// raw host base / mapping length of the region the current accessor step works on (for opcode 6, a4 = 2)
+static REGION_BASE: AtomicUsize = AtomicUsize::new(0);
+static REGION_MAPLEN: AtomicUsize = AtomicUsize::new(0);
 
 const X: u8 = 0x11;
 const Y: u8 = 0xee;
@@ -176,6 +185,8 @@ fn run<B: Flavour + 'static>(case: &[Tok], nreg: usize) -> Vec<Tok> {
                 if ri >= regs.len() {
                     (false, 0)
                 } else {
+                    REGION_BASE.store(regs[ri].as_ptr() as usize, Ordering::SeqCst);
+                    REGION_MAPLEN.store(geos[ri].size.div_ceil(4096) * 4096, Ordering::SeqCst);
                     let root = regs[ri].as_volatile_slice().unwrap();
                     let nch = s[7] as usize;
                     let chain: Vec<[u64; 4]> = (0..nch).map(|k| [s[8 + 4 * k], s[9 + 4 * k], s[10 + 4 * k], s[11 + 4 * k]]).collect();
@@ -369,7 +380,37 @@ fn slice_op<S: BitmapSlice>(s: &VolatileSlice<S>, op: &[u64]) -> (bool, u64) {
             // descriptor on which read(2) fails with EBADF
             use std::io::{Seek, Write};
             use std::os::fd::FromRawFd;
-            if a4 != 0 {
+            if a4 == 2 {
+                if a3 % 4096 != 0 || a1 > 60_000 || a3 > 1 << 20 {
+                    return (false, 0);
+                }
+                // one datagram of a1 bytes; host pages from region offset a3 on are inaccessible during the call
+                let mut fds = [0i32; 2];
+                assert_eq!(unsafe { libc::socketpair(libc::AF_UNIX, libc::SOCK_DGRAM | libc::SOCK_NONBLOCK, 0, fds.as_mut_ptr()) }, 0);
+                let mut f = unsafe { std::fs::File::from_raw_fd(fds[0]) };
+                let peer = unsafe { std::fs::File::from_raw_fd(fds[1]) };
+                let msg = vec![Y; a1];
+                let sent = unsafe { libc::send(fds[1], msg.as_ptr() as *const libc::c_void, a1, 0) };
+                assert_eq!(sent, a1 as isize, "datagram send");
+                let (base, maplen) = (REGION_BASE.load(Ordering::SeqCst), REGION_MAPLEN.load(Ordering::SeqCst));
+                let guard = a3 < maplen;
+                if guard {
+                    assert_eq!(unsafe { libc::mprotect((base + a3) as *mut libc::c_void, maplen - a3, libc::PROT_NONE) }, 0);
+                }
+                let r = crate::util::catch(|| s.read_volatile_from(a2, &mut f, a1));
+                if guard {
+                    assert_eq!(
+                        unsafe { libc::mprotect((base + a3) as *mut libc::c_void, maplen - a3, libc::PROT_READ | libc::PROT_WRITE) },
+                        0
+                    );
+                }
+                drop(peer);
+                match r {
+                    Some(Ok(v)) => (true, v as u64),
+                    Some(Err(_)) => (false, 0),
+                    None => (false, 0xdead),
+                }
+            } else if a4 != 0 {
                 let fd = unsafe { libc::open(b"/dev/null\0".as_ptr() as *const libc::c_char, libc::O_WRONLY) };
                 let mut f = unsafe { std::fs::File::from_raw_fd(fd) };
                 match s.read_volatile_from(a2, &mut f, a1) {
@@ -460,7 +501,69 @@ fn pick_near(rng: &mut Rng, pivots: &[u64]) -> u64 {
     }
 }
 
+/// descriptor reads that fail part-way (opcode 6, a4 = 2) on regions spanning several host pages
+fn gen_fault(rng: &mut Rng, tier: Tier, emit: &mut dyn FnMut(Vec<Tok>)) {
+    let ncases = if tier == Tier::Quick { 1500 } else { 30_000 };
+    for _ in 0..ncases {
+        let flavour = *rng.pick(&[1u64, 1, 1, 2, 3, 4, 0]);
+        let ps = *rng.pick(&[64u64, 100, 512, 1024, 4096, 4096, 5000, 8192]);
+        let size = *rng.pick(&[4097u64, 4200, 8192, 8193, 12288, 16000, 20000]) + rng.below(3);
+        let start = *rng.pick(&[0u64, 0x1000, 0x7fff_f000]);
+        let mut case = vec![n(0u8), n(1u8), Tok::of_u64s(&[start, size, ps, flavour])];
+        for _ in 0..1 + rng.below(3) {
+            // accessor: the region itself, a sub-slice, or an offset slice
+            let mut chain: Vec<u64> = Vec::new();
+            let (mut aoff, mut len, mut nch) = (0u64, size, 0u64);
+            for _ in 0..rng.below(3) {
+                if rng.bool() {
+                    let o = rng.below(len / 2 + 1);
+                    let c = len - o - rng.below((len - o) / 4 + 1);
+                    chain.extend_from_slice(&[0, o, c, 0]);
+                    aoff += o;
+                    len = c;
+                } else {
+                    let c = rng.below(len / 3 + 1);
+                    chain.extend_from_slice(&[1, c, 0, 0]);
+                    aoff += c;
+                    len -= c;
+                }
+                nch += 1;
+            }
+            let addr = match rng.below(4) {
+                0 => 0,
+                1 => rng.below(len + 1),
+                _ => rng.below(len / 2 + 1),
+            };
+            let room = len - addr;
+            let cnt = match rng.below(5) {
+                0 => room,
+                1 => room + 1 + rng.below(9),
+                2 => rng.below(room + 1),
+                3 => rng.below(4097),
+                _ => 4096 + rng.below(4200),
+            };
+            let t0 = aoff + addr;
+            let first = (t0 / 4096 + 1) * 4096;
+            let fault = match rng.below(10) {
+                0 => 0,
+                1 => (t0 / 4096) * 4096,
+                2 | 3 => first + 4096 * (1 + rng.below(3)),
+                _ => first,
+            };
+            if rng.chance(1, 6) {
+                // interleave a reset / an ordinary write so that marks of earlier steps matter
+                case.push(Tok::of_u64s(&[2, 0]));
+            }
+            let mut st = vec![0, 0, 6, cnt, addr, fault, 2, nch];
+            st.extend_from_slice(&chain);
+            case.push(Tok::of_u64s(&st));
+        }
+        emit(case);
+    }
+}
+
 fn gen(rng: &mut Rng, tier: Tier, emit: &mut dyn FnMut(Vec<Tok>)) {
+    gen_fault(rng, tier, emit);
     let ncases = if tier == Tier::Quick { 8000 } else { 120_000 };
     for _ in 0..ncases {
         let flavour = *rng.pick(&[1u64, 1, 1, 2, 3, 4, 0]);
@@ -513,6 +616,7 @@ fn gen(rng: &mut Rng, tier: Tier, emit: &mut dyn FnMut(Vec<Tok>)) {
                     // accessor level: random derivation chain, lengths tracked so that most requests are valid
                     let mut chain: Vec<u64> = Vec::new();
                     let mut len = size;
+                    let mut aoff = 0u64; // region offset of the accessor (meaningful while every request was valid)
                     let mut nch = 0u64;
                     let depth = rng.below(5);
                     let mut kind = 0u64; // 0 slice, 1 ref, 2 arr(esz,n)
@@ -528,20 +632,20 @@ fn gen(rng: &mut Rng, tier: Tier, emit: &mut dyn FnMut(Vec<Tok>)) {
                                 let c = pick_near(rng, &[len.saturating_sub(o), 1, ps, 0]);
                                 chain.extend_from_slice(&[0, o, c, 0]);
                                 nch += 1;
-                                if o.checked_add(c).map_or(false, |e| e <= len) { len = c; } else { break; }
+                                if o.checked_add(c).map_or(false, |e| e <= len) { len = c; aoff += o; } else { break; }
                             }
                             2 => {
                                 let c = pick_near(rng, &[0, len / 2, len, ps]);
                                 chain.extend_from_slice(&[1, c, 0, 0]);
                                 nch += 1;
-                                if c <= len { len -= c; } else { break; }
+                                if c <= len { len -= c; aoff += c; } else { break; }
                             }
                             3 => {
                                 let m = pick_near(rng, &[0, len / 2, len, ps]);
                                 let second = rng.below(2);
                                 chain.extend_from_slice(&[2, m, second, 0]);
                                 nch += 1;
-                                if m <= len { len = if second != 0 { len - m } else { m }; } else { break; }
+                                if m <= len { if second != 0 { aoff += m; len -= m; } else { len = m; } } else { break; }
                             }
                             4 => {
                                 let sz = *rng.pick(&[1u64, 2, 3, 4, 8, 16, 0]);
@@ -591,6 +695,20 @@ fn gen(rng: &mut Rng, tier: Tier, emit: &mut dyn FnMut(Vec<Tok>)) {
                                     (code, sz, if rng.chance(3, 4) { a & !(sz - 1) } else { a }, 0, 0)
                                 }
                                 3 | 10 => (code, *rng.pick(&[1u64, 1, 2, 3, 4, 8, 16, 0]), pick_near(rng, &[0, 1, len, len / 2, len + 3]).min(30_000), 0, 0),
+                                6 if rng.chance(1, 3) => {
+                                    // fails part-way: the first inaccessible host page starts inside the target (mostly)
+                                    let cnt = pick_near(rng, &[1, ps, len, len + 5, 4096, 5000]).min(60_000);
+                                    let addr = pick_near(rng, &[0, len / 2, len / 4, ps]);
+                                    let t0 = aoff.saturating_add(addr);
+                                    let first = (t0 / 4096 + 1) * 4096;
+                                    let fault = match rng.below(8) {
+                                        0 => 0,
+                                        1 => (t0 / 4096) * 4096,
+                                        2 => first + 4096 * rng.below(3),
+                                        _ => first,
+                                    };
+                                    (code, cnt, addr, fault.min(1 << 20), 2)
+                                }
                                 6 => {
                                     let cnt = pick_near(rng, &[0, 1, ps, len, len + 5]).min(60_000);
                                     (code, cnt, pick_near(rng, &[0, len / 2, len, ps]), pick_near(rng, &[cnt, cnt / 2, 0, 3]).min(60_000), rng.below(3) / 2)
